@@ -48,9 +48,9 @@ func stallRules(sps []StallSpec) []*verifsim.StallRule {
 
 // Sites (resolved against the instrumented tree by substring + suffix).
 const (
-	siteStdoutLock   = "io/dlog/loggers/stdout.go"          // + "/lock": the consumer (terminal / pipe)
-	siteSendCommand  = "clients/handlers/basehandler.go"    // + "/select": SendMessage of a command
-	siteCommandStart = "server/handlers/serverhandler.go"   // + "/go": goroutine running one command
+	siteStdoutLock   = "io/dlog/loggers/stdout.go"        // + "/lock": the consumer (terminal / pipe)
+	siteSendCommand  = "clients/handlers/basehandler.go"  // + "/select": SendMessage of a command
+	siteCommandStart = "server/handlers/serverhandler.go" // + "/go": goroutine running one command
 )
 
 type C02File struct {
@@ -76,9 +76,9 @@ type C02Scenario struct {
 	Kind      string              `json:"kind"` // cat | grep
 	Plain     bool                `json:"plain"`
 	Cfg       ServerCfg           `json:"cfg"`
-	Files     []C02File           `json:"files"`    // file i is data/<dir>/f<i>.log
-	Commands  []string            `json:"commands"` // globs or paths, relative to data/
-	KeepEvery int                 `json:"keep_every"` // grep: line n is selected iff n % KeepEvery == 0
+	Files     []C02File           `json:"files"`            // file i is data/<dir>/f<i>.log
+	Commands  []string            `json:"commands"`         // globs or paths, relative to data/
+	KeepEvery int                 `json:"keep_every"`       // grep: line n is selected iff n % KeepEvery == 0
 	Before    int                 `json:"before,omitempty"` // grep context options (exercise the context filter and its early abort under back-pressure)
 	After     int                 `json:"after,omitempty"`
 	Max       int                 `json:"max,omitempty"`
